@@ -15,6 +15,11 @@ type BasicPrivateIssuer struct {
 }
 
 func NewBasicPrivateIssuer(key *oprf.PrivateKey) *BasicPrivateIssuer {
+	// The key object computes and caches its public key on first use without
+	// synchronisation; do that now, before the issuer can be shared between
+	// goroutines.
+	key.Public()
+
 	return &BasicPrivateIssuer{
 		tokenKey: key,
 	}
